@@ -8,7 +8,7 @@ Prints one summary line per step (used to fill seeded/<id>/meta.json).
 import sys, subprocess, os, json, re
 wt, patch, demo = sys.argv[1:4]
 props = sys.argv[4:]
-ENV = dict(os.environ, CARGO_NET_OFFLINE="true")
+ENV = dict(os.environ, CARGO_NET_OFFLINE="true", VERIF_EVIDENCE_DIR="/verif/.build/evidence-scratch")
 def sh(cmd, cwd=None):
     p = subprocess.run(cmd, cwd=cwd, env=ENV, stdout=subprocess.PIPE, stderr=subprocess.STDOUT, text=True, shell=True)
     return p.returncode, p.stdout
